@@ -458,8 +458,11 @@ HTTP/2 field list for a request carrying `X-A: " v "` exists. -/
 example : ordinaryKey [88, 45, 65] = true ∧ ordinaryKey sConnection = false ∧
     ordinaryKey sContentLengthL = false ∧ ordinaryKey sUserAgent = false := by decide
 
-example : (fields .h2 { method := [71, 69, 84], url := { scheme := [104], host := [104], path := [47] },
-    header := [⟨[88, 45, 65], [[32, 118, 32]]⟩] }).toOption.map (·.length) = some 6 := by decide
+example :
+    let q : FReq := { method := [71, 69, 84],
+                      url := { scheme := [104], host := [104], path := [47] },
+                      header := [⟨[88, 45, 65], [[32, 118, 32]]⟩] }
+    (fields .h2 q).toOption.map (·.length) = some 6 := by decide
 
 theorem lower_pseudo : lower sPath = sPath ∧ lower sMethod = sMethod ∧ lower sAuthority = sAuthority := by
   decide
